@@ -14,7 +14,7 @@ import (
 // Stream = fault enumeration.  For every deposit shape
 //   {valid / malformed / module / blocked recipient} x {0, 1, large amount} x
 //   {no payload, undecodable bytes, badly signed tx, tx failing at message 1, at message 2,
-//    out-of-gas loop, succeeding transfer}
+//    out-of-gas loop, succeeding transfer, succeeding withdrawal, withdrawal then failing message}
 // on two base states (denom new / denom already registered; recipient account new / existing)
 // the deposit is first run with the fault plan in record mode, then once per recorded
 // bank / account keeper call x {error, panic}, each run on a fresh branch of the base state.
@@ -29,7 +29,8 @@ func c07Guarded(call string) bool {
 	case "MintCoins", "SendCoinsFromModuleToAccount", "SendCoins":
 		return true
 	}
-	return false
+	// keeper calls made by a hook's own withdrawal message run inside handleBridgeHook's cache + recover
+	return strings.HasPrefix(call, "hook:")
 }
 
 // known finding D11: one signature per unguarded call-site class
@@ -52,7 +53,7 @@ var c07Classes = []string{"account-creation", "denom-metadata", "reclaim", "burn
 type c07Shape struct {
 	Rcp     string // valid | malformed | module | blocked
 	AmtName string // 0 | 1 | large
-	Hook    string // none | garbage | badsig | fail1 | fail2 | oog | ok
+	Hook    string // none | garbage | badsig | fail1 | fail2 | oog | ok | wd | wdfail
 }
 
 type c07Run struct {
@@ -73,6 +74,7 @@ type c07Run struct {
 	Signer      uint64 // hook signer (0 = none)
 	Target      uint64 // hook transfer target
 	HookAmt     int64  // what an "ok" hook moves
+	HookWd      int64  // what a "wd" hook withdraws to L1
 	HookDen     string
 }
 
@@ -226,10 +228,10 @@ func (fx *c07Fx) judge(run *c07Run) {
 	// a zero-amount deposit only touches the account, so it also "succeeds" for blocked module accounts
 	creditable := run.Shape.Rcp == "valid" || (o.Amt.Sign() == 0 && (run.Shape.Rcp == "module" || run.Shape.Rcp == "blocked"))
 	guardedDepositFault := faultName == "MintCoins" || faultName == "SendCoinsFromModuleToAccount"
-	hookFault := faultName == "SendCoins"
+	hookFault := faultName == "SendCoins" || strings.HasPrefix(faultName, "hook:")
 	hookShouldRun := creditable && !guardedDepositFault && run.Shape.Hook != "none"
 	expectA := creditable && !guardedDepositFault &&
-		(run.Shape.Hook == "none" || (run.Shape.Hook == "ok" && !hookFault))
+		(run.Shape.Hook == "none" || ((run.Shape.Hook == "ok" || run.Shape.Hook == "wd") && !hookFault))
 	// only the hook signer's account sequence may move, by one
 	for k := range post.AccSeq {
 		d := post.AccSeq[k] - pre.AccSeq[k]
@@ -242,8 +244,18 @@ func (fx *c07Fx) judge(run *c07Run) {
 		if !expectA {
 			fx.viol(run, "C07:failed-deposit-credited", "a deposit whose credit or hook failed was reported and kept as credited")
 		}
-		if len(wevs) != 0 || post.N2 != pre.N2 {
-			fx.viol(run, "C07:two-outcomes", "credited deposit also recorded a withdrawal")
+		// the only records of a credited deposit are those of the hook's own withdrawal messages
+		expW := 0
+		if run.Shape.Hook == "wd" && hookShouldRun {
+			expW = 1
+		}
+		if len(wevs) != expW || post.N2 != pre.N2+uint64(expW) {
+			fx.viol(run, "C07:two-outcomes", fmt.Sprintf("credited deposit with %d withdrawal records (expected %d from its hook), NextL2Sequence %d -> %d", len(wevs), expW, pre.N2, post.N2))
+		}
+		for k, w := range wevs {
+			if w.Seq != pre.N2+uint64(k) || w.Amt.Cmp(big.NewInt(run.HookWd)) != 0 || w.Denom != run.HookDen || w.From != fx.sc.Env.User(run.Signer).Str {
+				fx.viol(run, "C07:hook-withdrawal-record", fmt.Sprintf("record (%d,%s,%s,%s) of the hook's withdrawal differs from its message", w.Seq, w.From, w.Denom, w.Amt))
+			}
 		}
 		ri := l2IdxU(tr.Accts, fx.sc.Env.Table[o.To])
 		for a := range tr.Accts {
@@ -251,6 +263,9 @@ func (fx *c07Fx) judge(run *c07Run) {
 				want := new(big.Int).Set(pre.Bal[a][d])
 				if a == ri && d == di {
 					want.Add(want, o.Amt)
+				}
+				if run.Shape.Hook == "wd" && hookShouldRun && tr.Denoms[d] == run.HookDen && tr.Accts[a] == run.Signer {
+					want.Sub(want, big.NewInt(run.HookWd))
 				}
 				if run.Shape.Hook == "ok" && hookShouldRun && tr.Denoms[d] == run.HookDen {
 					if tr.Accts[a] == run.Signer {
@@ -269,6 +284,9 @@ func (fx *c07Fx) judge(run *c07Run) {
 			want := new(big.Int).Set(pre.Sup[d])
 			if d == di {
 				want.Add(want, o.Amt)
+			}
+			if run.Shape.Hook == "wd" && hookShouldRun && tr.Denoms[d] == run.HookDen {
+				want.Sub(want, big.NewInt(run.HookWd))
 			}
 			if post.Sup[d].Cmp(want) != 0 {
 				fx.viol(run, "C07:credit-inexact", fmt.Sprintf("supply of %s is %s, expected %s", tr.Denoms[d], post.Sup[d], want))
@@ -313,7 +331,7 @@ func genC07(seed uint64, tier string, outdir string) *Report {
 		v *big.Int
 	}{{"0", big.NewInt(0)}, {"1", big.NewInt(1)}, {"large", large}}
 	rcps := []string{"valid", "malformed", "module", "blocked"}
-	hooks := []string{"none", "garbage", "badsig", "fail1", "fail2", "oog", "ok"}
+	hooks := []string{"none", "garbage", "badsig", "fail1", "fail2", "oog", "ok", "wd", "wdfail"}
 	gasBound := map[string][2]uint64{}
 
 	for b := 0; b < nBases; b++ {
@@ -364,6 +382,10 @@ func genC07(seed uint64, tier string, outdir string) *Report {
 					sends = append(sends, HookSend{To: target, Denom: hookDen, Amt: big.NewInt(1)})
 				}
 				return e.MakeHookTx(signer, q, true, sends)
+			case "wd": // the hook withdraws 3 back to L1: an ordinary user withdrawal, announced by an event
+				return e.MakeHookTx(signer, q, true, []HookSend{{Withdraw: true, ToL1: sc.L1Addrs[0], Denom: hookDen, Amt: big.NewInt(3)}})
+			case "wdfail": // ... followed by a failing message: nothing of the withdrawal may survive
+				return e.MakeHookTx(signer, q, true, []HookSend{{Withdraw: true, ToL1: sc.L1Addrs[0], Denom: hookDen, Amt: big.NewInt(3)}, {To: target, Denom: hookDen, Amt: c07TooMuch}})
 			default:
 				return e.MakeHookTx(signer, q, true, []HookSend{{To: target, Denom: hookDen, Amt: big.NewInt(5)}})
 			}
@@ -393,7 +415,7 @@ func genC07(seed uint64, tier string, outdir string) *Report {
 					}
 					mk := func(failAt int, pn bool) *c07Run {
 						return &c07Run{Shape: shape, Base: b, Op: op, FailAt: failAt, Panic: pn, HookGas: hookGas,
-							Signer: signer, Target: target, HookAmt: 5, HookDen: hookDen}
+							Signer: signer, Target: target, HookAmt: 5, HookWd: 3, HookDen: hookDen}
 					}
 					// record mode
 					rec := mk(0, false)
@@ -445,7 +467,11 @@ func genC07(seed uint64, tier string, outdir string) *Report {
 				sg := uint64(1 + r.Intn(6))
 				var sends []HookSend
 				for j := 0; j < 1+r.Intn(4); j++ {
-					sends = append(sends, HookSend{To: uint64(1 + r.Intn(6)), Denom: sc.L2Denoms[r.Intn(2)], Amt: big.NewInt(int64(r.Intn(120)))})
+					hs := HookSend{To: uint64(1 + r.Intn(6)), Denom: sc.L2Denoms[r.Intn(2)], Amt: big.NewInt(int64(r.Intn(120)))}
+					if r.Chance(35) {
+						hs.Withdraw, hs.ToL1 = true, sc.L1Addrs[r.Intn(len(sc.L1Addrs))]
+					}
+					sends = append(sends, hs)
 				}
 				hook := e.MakeHookTx(sg, e.AccSeq(sg)+uint64(r.Intn(2)), r.Chance(85), sends)
 				op := sc.Deposit(e.User(1).Str, n1, e.User(uint64(1+r.Intn(6))).Str, r.Intn(2), big.NewInt(int64(r.Intn(200))), hook)
